@@ -128,6 +128,8 @@ def request_quantum(base, contents=None):
         return cf.q
     if base == 'mol':
         return cf.q * cf.mol_prefix
+    if base == 'U':
+        return cf.q          # activity amounts are stored, and requests compared, at 1e-10 U
     return 0.0
 
 
